@@ -60,7 +60,7 @@ type GenOpts struct {
 func DefaultOpts() GenOpts {
 	return GenOpts{PPred: 0.2, PFallback: 0.15, PInstrument: 0.3, PEmitters: 0.3, PInstrD: 0.6, PWrap: 0.2,
 		PParallel: 0.35, PEnd: 0.4, PCOE: 0.5, MaxTasks: 7, PShadow: 0.15, PBare: 0.15,
-		Spellings: []string{"lit", "lit", "lit", "top", "method", "funcvar", "callret", "imported"}, ExtTypes: true}
+		Spellings: []string{"lit", "lit", "lit", "top", "method", "funcvar", "callret", "imported", "generic"}, ExtTypes: true}
 }
 
 type typePool struct {
@@ -179,7 +179,7 @@ func GenFlow(t *rapid.T, name string, o GenOpts) *rt.Spec {
 		}
 		ts.Ctx = prob(t, "ctx", 0.5)
 		ts.Err = prob(t, "err", 0.5)
-		if sp == "top" || sp == "imported" {
+		if sp == "top" || sp == "imported" || sp == "generic" {
 			ts.Ctx = true // static functions find their environment through the context
 		}
 		if len(ts.Out) == 0 {
@@ -289,9 +289,9 @@ func GenParallel(t *rapid.T, name string, o GenOpts) *rt.Spec {
 		run := 1 + uniform(t, "run", 3)
 		asTasks := prob(t, "astasks", 0.5)
 		for k := 0; k < run && i < np; k++ {
-			sp := []string{"lit", "lit", "lit", "top", "method", "funcvar", "callret"}[uniform(t, "spelling", 7)]
+			sp := []string{"lit", "lit", "lit", "top", "method", "funcvar", "callret", "generic"}[uniform(t, "spelling", 8)]
 			pt := rt.PTaskSpec{Unit: unit, Ctx: prob(t, "ctx", 0.5), Err: prob(t, "err", 0.5), Group: -1, Sp: sp}
-			if sp == "top" {
+			if sp == "top" || sp == "generic" {
 				pt.Ctx = true
 			}
 			if asTasks {
